@@ -4,6 +4,7 @@ import os
 
 PROP = {
     "bin": "c16",
+    "minimize": True,   # harness implements `--only i --keep p0,p1,..` (notes/minimisation.md)
     "coq_targets": ["theories/Mem/C16Check", "theories/Mem/BackingRegions"],
     "n": {"quick": int(os.environ.get("C16_N", "2400")), "thorough": 24000},
     "theorems": ["sections_disjoint", "abs_set_memory_step", "abs_set_memory", "get8_spec", "permissions_spec", "get_spec", "get32_spec", "set32_spec", "region_access", "find_sec_is_cover", "never_covered_unmapped"],
